@@ -6,7 +6,8 @@
 From Coq Require Import ZArith List Bool.
 From RP Require Sched.Model Sched.NodeMap Sched.Inv Sched.SchedProofs Sched.RunProofs
                Sched.LiveProofs Sched.CancelProofs Sched.ConsProofs Sched.CancelRunProofs.
-From RP Require Exec.Model Exec.Oracle Exec.Local Exec.Proj Exec.Proofs Exec.CancelProofs Exec.ExamProofs Exec.PollProofs Exec.HandlerProofs Exec.KillProofs.
+From RP Require Exec.Model Exec.Oracle Exec.Local Exec.Proj Exec.Proofs Exec.CancelProofs Exec.ExamProofs Exec.PollProofs Exec.HandlerProofs.
+From RP Require Relay.Model Relay.Oracle Relay.Proofs Relay.History Relay.Frame Relay.OracleProofs.
 Import ListNotations.
 
 Module SchedSide.
@@ -305,3 +306,98 @@ Proof. exact model_not_signalled. Qed.
 Print Assumptions C08_not_signalled_clause_holds_in_model.
 
 End ExecSide.
+
+(* ---- raptor relay of the agent scheduler: the third of the four places where
+   cancellation is implemented (the backlog of raptor tasks waiting for their
+   master), RP.Relay.Model.  All statements are about EVERY history. ---- *)
+Module RelaySide.
+Import RP.Relay.Model RP.Relay.Oracle RP.Relay.Proofs RP.Relay.History RP.Relay.Frame RP.Relay.OracleProofs.
+Open Scope Z_scope.
+
+(* one request: every named uid leaves every backlog and is canceled as often
+   as it waited there; tasks not named keep their place and their order;
+   nothing is forwarded or failed; scheduler queue and registrations untouched *)
+Theorem C08_relay_cancel_in_backlog :
+  forall s us,
+    let '(s', e) := step s (Cancel us) in
+    backlog s' = unnamed us (backlog s) /\ inq s' = inq s /\ queues s' = queues s
+    /\ (exists c, e = [OCancel c] /\ (forall u, In u c -> In u us)
+                  /\ forall u, In u us -> cnt u c = tot u (backlog s))
+    /\ (forall u, In u us -> tot u (backlog s') = 0%nat)
+    /\ (forall u, ~ In u us -> tot u (backlog s') = tot u (backlog s)).
+Proof. exact cancel_in_backlog. Qed.
+Print Assumptions C08_relay_cancel_in_backlog.
+
+(* whole histories: a request naming a task that waits in a backlog cancels it,
+   exactly once, and the task is never forwarded, failed or waiting again *)
+Theorem C08_relay_cancel_stops_waiting_task :
+  forall ops1 us ops2 u s1 e1 s2 e2 s3 e3,
+    run init ops1 = (s1, e1) -> step s1 (Cancel us) = (s2, e2) -> run s2 ops2 = (s3, e3) ->
+    In u us -> (n_arr u (ops1 ++ ops2) <= 1)%nat -> (0 < tot u (backlog s1))%nat ->
+    n_cancel u e2 = 1%nat
+    /\ n_fwd u (e1 ++ e2 ++ e3) = 0%nat /\ n_fail u (e1 ++ e2 ++ e3) = 0%nat
+    /\ n_cancel u (e1 ++ e2 ++ e3) = 1%nat
+    /\ (n_inq u s3 + tot u (backlog s3) = 0)%nat.
+Proof. exact cancel_stops_waiting_task. Qed.
+Print Assumptions C08_relay_cancel_stops_waiting_task.
+
+(* "a named task that a component meets later is canceled there instead of
+   being processed" is FALSE of the relay: a request handled while the task is
+   still on the scheduler queue misses it; the task is then put into the
+   backlog and relayed when its master registers (witness: task 1 for master 1
+   is put on the queue, the request is handled, the queue is drained, master 1
+   registers) *)
+Theorem C08_relay_cancel_stops_named_refuted :
+  exists ops1 us ops2 u s e,
+    run init (ops1 ++ Cancel us :: ops2) = (s, e) /\ In u us /\
+    n_arr u ops1 = 1%nat /\ n_arr u ops2 = 0%nat /\ n_fwd u (snd (run init ops1)) = 0%nat /\
+    n_fwd u e = 1%nat /\ n_cancel u e = 0%nat.
+Proof. exact cancel_stops_named_refuted. Qed.
+Print Assumptions C08_relay_cancel_stops_named_refuted.
+
+(* what holds of it: a named task that has arrived and is no longer on the
+   scheduler queue when the request is handled is not forwarded from then on *)
+Theorem C08_relay_cancel_stops_named_partial :
+  forall ops1 us ops2 u s1 e1 s2 e2 s3 e3,
+    run init ops1 = (s1, e1) -> step s1 (Cancel us) = (s2, e2) -> run s2 ops2 = (s3, e3) ->
+    In u us -> n_arr u ops1 = 1%nat -> n_arr u ops2 = 0%nat -> n_inq u s1 = 0%nat ->
+    n_fwd u (e2 ++ e3) = 0%nat /\ tot u (backlog s3) = 0%nat.
+Proof. exact cancel_stops_named_partial. Qed.
+Print Assumptions C08_relay_cancel_stops_named_partial.
+
+(* tasks not named are unaffected: a request placed anywhere in a history
+   changes nothing of what the relay shows about a uid it does not name (to
+   which queue it is put and when, failures, cancellations, all round robin and
+   normal scheduling traffic) and nothing of where that uid waits *)
+Theorem C08_relay_bystander_frame :
+  forall ops1 us ops2 u s e s' e',
+    ~ In u us ->
+    run init (ops1 ++ Cancel us :: ops2) = (s, e) -> run init (ops1 ++ ops2) = (s', e') ->
+    view u e = view u e' /\
+    (inq s = inq s' /\ queues s = queues s' /\ pv u (backlog s) = pv u (backlog s')).
+Proof. exact bystander_frame. Qed.
+Print Assumptions C08_relay_bystander_frame.
+
+Theorem C08_relay_bystander_same_counts :
+  forall ops1 us ops2 u s e s' e',
+    ~ In u us ->
+    run init (ops1 ++ Cancel us :: ops2) = (s, e) -> run init (ops1 ++ ops2) = (s', e') ->
+    n_fwd u e = n_fwd u e' /\ n_fail u e = n_fail u e' /\ n_cancel u e = n_cancel u e'
+    /\ n_inq u s = n_inq u s' /\ tot u (backlog s) = tot u (backlog s').
+Proof. exact bystander_same_counts. Qed.
+Print Assumptions C08_relay_bystander_same_counts.
+
+Theorem C08_relay_clauses_hold_in_model :
+  forall ops, forallb (fun b => b) (relay_row ops (trace init ops)) = true.
+Proof. exact clauses_hold_in_model. Qed.
+Print Assumptions C08_relay_clauses_hold_in_model.
+
+(* non-vacuity: tasks 1, 2 wait for master 1, task 3 for any master; the
+   request for 2 and 3 (and an unknown 9) cancels both where they wait; master 1
+   then gets task 1 and the emptied wildcard backlog *)
+Example C08_relay_nonvacuous :
+  let t u n := mkT u (Some n) false false in
+  run init [Arrive [t 1 1; t 2 1; t 3 0]; Drain; Cancel [2; 3; 9]; Register 1 1]
+  = (mkS [] [(1, 1)] [], [OCancel [2; 3]; OPut 1 [1]; OPut 1 []]).
+Proof. vm_compute. reflexivity. Qed.
+End RelaySide.
